@@ -142,6 +142,12 @@ class RealDiff:
         pairs = [(lpos.get(id(a)), rpos.get(id(b))) for a, b, _ in m2]
         return left2, pairs, s2
 
+    def reuse_other(self, R3p):
+        """The same Differ, the same left tree object, another right document: diff(L, R3)."""
+        R3 = xt.to_lxml(R3p)
+        self.keep.append(R3)
+        return list(self.differ.diff(self.L, R3))
+
 
 def real_patch(actions, Lp):
     """main.patch_tree on a tree built from Lp. Returns ('ok', PNode) or ('err', class, site)."""
